@@ -343,6 +343,99 @@ def midi_of(n):
     return (n["oct"] + 1) * 12 + BASE[n["step"]] + (n.get("alter") or 0)
 
 
+def chain_of(pd, head, byid=None):
+    """the members of the tie chain that starts at the note `head`, in chain order"""
+    byid = byid or {n["id"]: n for n in pd["notes"]}
+    out, cur = [head], head
+    while cur.get("tie"):
+        cur = byid[cur["tie"]]
+        out.append(cur)
+    return out
+
+
+def sounding_quarters(pd):
+    """[(onset, duration, pitch, voice)] in QUARTERS of the sounding notes, tied notes merged: a merged note starts at
+    the onset of the head of its chain and lasts the SUM of the lengths of the members, each in musical time - wherever
+    the members stand (a tie over a first ending joins two notes that are not neighbours on the timeline; the end of
+    the last member is then not the end of the merged note)"""
+    byid = {n["id"]: n for n in pd["notes"]}
+    has_prev = set(n["tie"] for n in pd["notes"] if n.get("tie"))
+    out = []
+    for n in pd["notes"]:
+        if n["kind"] not in ("note", "grace") or n["id"] in has_prev:
+            continue
+        dq = sum((quarter(pd, m["t"] + m["dur"]) - quarter(pd, m["t"]) for m in chain_of(pd, n, byid)), Fraction(0))
+        out.append((quarter(pd, n["t"]), dq, midi_of(n), n.get("voice")))
+    return out
+
+
+def gapped_chains(pd):
+    """the tie chains with a member that does not start where its predecessor ends"""
+    byid = {n["id"]: n for n in pd["notes"]}
+    has_prev = set(n["tie"] for n in pd["notes"] if n.get("tie"))
+    out = []
+    for n in pd["notes"]:
+        if n.get("tie") and n["id"] not in has_prev:
+            ch = chain_of(pd, n, byid)
+            if any(b["t"] != a["t"] + a["dur"] for a, b in zip(ch, ch[1:])):
+                out.append(ch)
+    return out
+
+
+def tie_span_uniform(pd):
+    """the generated domain of ties between notes that are not neighbours: the merged length counted in divisions from
+    the onset (`start + duration_tied`, what every reader of partitura uses for a tied note) is the sum of the members'
+    lengths in quarters - i.e. no change of the divisions makes a division of the gap worth another length than a
+    division of the continuation"""
+    for ch in gapped_chains(pd):
+        t0, D = ch[0]["t"], sum(m["dur"] for m in ch)
+        dq = sum((quarter(pd, m["t"] + m["dur"]) - quarter(pd, m["t"]) for m in ch), Fraction(0))
+        if quarter(pd, t0 + D) - quarter(pd, t0) != dq:
+            return False
+    return True
+
+
+def add_gapped_ties(rng, sd, tries=6):
+    """TIES BETWEEN NOTES THAT ARE NOT NEIGHBOURS on the timeline (the note before a first ending tied to the first note
+    of the second ending; a tie that skips a bar of rest): the last note of a chain is tied to the head of a later chain
+    that starts after a gap, the later chain takes the pitch of the earlier one.  Kept when the score stays in the
+    property's domain (the MERGED note - onset of the head, sum of the lengths - overlaps no note of its pitch)."""
+    n_added = 0
+    for pd in sd["parts"]:
+        for _ in range(rng.choice([1, 1, 2])):
+            for _try in range(tries):
+                byid = {n["id"]: n for n in pd["notes"]}
+                has_prev = set(n["tie"] for n in pd["notes"] if n.get("tie"))
+                notes = [n for n in pd["notes"] if n["kind"] == "note" and n["dur"] > 0]
+                tails = [n for n in notes if not n.get("tie")]
+                heads = [n for n in notes if n["id"] not in has_prev]
+                if not tails or not heads:
+                    break
+                a = rng.choice(tails)
+                later = [b for b in heads if b["t"] > a["t"] + a["dur"]]
+                if not later:
+                    continue
+                # mostly the same voice (a tie as it is notated), sometimes another one
+                same = [b for b in later if b.get("voice") == a.get("voice")]
+                b = rng.choice(same if same and rng.random() < 0.7 else later)
+                ch = chain_of(pd, b, byid)
+                old = [(m["step"], m.get("alter"), m["oct"]) for m in ch]
+                for m in ch:
+                    m["step"], m["alter"], m["oct"] = a["step"], a.get("alter"), a["oct"]
+                a["tie"] = b["id"]
+                _PICKUP.clear()
+                if domain_ok(sd) and tie_span_uniform(pd):
+                    n_added += 1
+                    break
+                del a["tie"]
+                for m, o in zip(ch, old):
+                    m["step"], m["alter"], m["oct"] = o
+    _PICKUP.clear()
+    if n_added:
+        sd["gapped_ties"] = n_added
+    return sd
+
+
 # ====================================================================== generator
 def lcm(a, b):
     return a * b // math.gcd(a, b)
@@ -717,7 +810,7 @@ def cases(rng, tier):
             tc = sorted(set((rng.randint(0, 3), rng.randint(0, 4)) for _ in range(rng.randint(1, 8))))
             yield {"k": "agpv", "mode": rng.choice(MODES + [6]), "trch": [list(x) for x in tc]}
         else:
-            yield {"k": "tied", "seed": rng.randrange(2 ** 31)}
+            yield {"k": "tied", "seed": rng.randrange(2 ** 31), "gap": rng.random() < 0.5}
     # raw MIDI files for the two readers: zero-velocity note ons, re-struck and orphan notes, several channels
     for _ in range(40 if tier == "quick" else 1500):
         yield {"k": "raw", "seed": rng.randrange(2 ** 31), "mode": rng.choice(MODES)}
@@ -725,6 +818,8 @@ def cases(rng, tier):
     for _ in range(60 if tier == "quick" else (1500 if tier == "thorough" else 800)):
         r2 = random.Random(rng.randrange(2 ** 62))
         sd = gen_score(r2)
+        if r2.random() < 0.25:
+            add_gapped_ties(r2, sd)
         add_warm(r2, sd)
         yield {"k": "hist", "score": sd,
                "cfg": [r2.choice(MODES), r2.choice(ANAC), r2.choice(MINPPQ), r2.choice([1, 30, 64, 90, 127])],
@@ -740,6 +835,8 @@ def cases(rng, tier):
     for i in range(n):
         r2 = random.Random(rng.randrange(2 ** 62))
         sd = gen_score(r2)
+        if r2.random() < 0.3:
+            add_gapped_ties(r2, sd)
         add_warm(r2, sd)
         if tier == "quick":
             cfgs = [[m, a, rng.choice(MINPPQ), rng.choice([1, 30, 64, 90, 127])] for m in MODES for a in ANAC]
@@ -803,8 +900,8 @@ def domain_ok(sd):
     strictly inside a positive one) - then they do not overlap within any track / channel of any mode"""
     by_pitch = defaultdict(list)
     for pd in sd["parts"]:
-        for (t, dur, pitch, _) in sounding_desc(pd):
-            by_pitch[pitch].append((quarter(pd, t), quarter(pd, t + dur)))
+        for (q0, dq, pitch, _) in sounding_quarters(pd):
+            by_pitch[pitch].append((q0, q0 + dq))
     for iv in by_pitch.values():
         pos = sorted(x for x in iv if x[0] < x[1])
         if any(a[1] > b[0] for a, b in zip(pos, pos[1:])):
@@ -1114,6 +1211,17 @@ def evaluate(d):
     elif k == "tied":
         rng = random.Random(d["seed"])
         sd = G.random_part_desc(rng, p_tie=0.5, n_measures=rng.randint(1, 4))
+        if d.get("gap"):
+            # ties between notes that are not neighbours on the timeline (no domain is needed for duration_tied)
+            for _ in range(rng.randint(1, 3)):
+                has_prev = set(n["tie"] for n in sd["notes"] if n.get("tie"))
+                tails = [n for n in sd["notes"] if n["kind"] == "note" and not n.get("tie")]
+                if not tails:
+                    break
+                a = rng.choice(tails)
+                later = [b for b in sd["notes"] if b["kind"] == "note" and b["id"] not in has_prev and b["t"] > a["t"] + a["dur"]]
+                if later:
+                    a["tie"] = rng.choice(later)["id"]
         part = G.build_part(sd)
         import partitura.score as S
 
@@ -1443,8 +1551,8 @@ def eval_hist(d):
     ev.info = {"parts": len(pds), "notes": n_sound, "hist_ops": len(d["ops"])}
     want_ms = Counter()
     for pd in pds:
-        for (t, dur, pitch, _) in sounding_desc(pd):
-            want_ms[(quarter(pd, t), quarter(pd, t + dur) - quarter(pd, t), pitch)] += 1
+        for (q0, dq, pitch, _) in sounding_quarters(pd):
+            want_ms[(q0, dq, pitch)] += 1
     org = origin_of({"parts": pds}, anac)
     with tempfile.TemporaryDirectory(prefix="c04h") as tmp:
         fn = os.path.join(tmp, "x.mid")
@@ -1819,6 +1927,8 @@ def edit_domain_ok(sd):
     parts that start equally early have the same first time signature (see gen_score)"""
     if not domain_ok(sd):
         return False
+    if not all(tie_span_uniform(pd) for pd in sd["parts"]):
+        return False   # an edit of the divisions inside the span of a tie between notes that are not neighbours
     # a MIDI time signature holds a numerator of at most 255 (mido refuses more): every measure, as `time_sig_change`
     # writes it (beats halved until whole or /128), stays below that
     for pd in sd["parts"]:
@@ -1888,6 +1998,8 @@ def gen_edit_case(rng):
     1-3 edits each optionally followed by a read; the final export is judged"""
     for _ in range(20):
         sd = gen_score1(rng, style=rng.choice([None, None, None, "extent", "zero"]))
+        if rng.random() < 0.25:
+            add_gapped_ties(rng, sd)
         if edit_domain_ok(sd):
             break
     add_warm(rng, sd)
@@ -2068,8 +2180,8 @@ def oracle(sd, order, cfg, mf, tracks, pnotes, sc2, tag):
     # ---- the score's sounding notes in quarters
     want = []  # (q_onset, q_dur, pitch, part index, voice)
     for pi, pd in enumerate(pds):
-        for (t, dur, pitch, voice) in sounding_desc(pd):
-            want.append((quarter(pd, t), quarter(pd, t + dur) - quarter(pd, t), pitch, pi, voice))
+        for (q0, dq, pitch, voice) in sounding_quarters(pd):
+            want.append((q0, dq, pitch, pi, voice))
     want_ms = Counter((q, dq, p) for q, dq, p, _, _ in want)
     # ---- direct reading of the file
     if pnotes is not None:
@@ -2436,6 +2548,8 @@ def distribution(descs, results):
         "with_zero_duration_ordinary_note": sum(1 for d in sc + hs if any(n["kind"] == "note" and n["dur"] == 0 for pd in d["score"]["parts"] for n in pd["notes"])),
         "raw_files_perf_reader_raised": sum(1 for r in results if isinstance(r, dict) and (r.get("info") or {}).get("raw_perf_raised")),
         "raw_files_importer_raised": sum(1 for r in results if isinstance(r, dict) and (r.get("info") or {}).get("raw_import_raised")),
+        "with_ties_between_notes_that_are_not_neighbours": sum(1 for d in sc + hs + eds if d["score"].get("gapped_ties")),
+        "gapped_tie_chains": sum(len(gapped_chains(pd)) for d in sc + hs + eds for pd in d["score"]["parts"]),
         "with_ties": sum(1 for d in sc if any(n.get("tie") for pd in d["score"]["parts"] for n in pd["notes"])),
         "notes": sum(r.get("info", {}).get("notes", 0) for r in results if isinstance(r, dict)),
         "impspec_observations": _impspec_counts(results),
